@@ -144,9 +144,12 @@ def post_state(eng, contract, src, outcome):
             post_env["result"] = eng.math_view(outcome[1])
             eng.frames[0].env = post_env
             for i, (exc, when) in enumerate(contract.raises):
+                if when is None:
+                    continue  # may raise under conditions the contract does not pin down
                 eng.prove(z3.Not(eng.truth(eng.eval_clause(when))), "raises_iff", "no %s => not(%s)" % (exc.__name__, when), src.first_line, assume_after=False)
             for i, cl in enumerate(contract.ensures):
-                eng.prove(eng.eval_clause(cl), "ensures", "ensures[%d]" % i, src.first_line, assume_after=False)
+                # earlier postconditions serve as lemmas for later ones (each is proved before it is assumed)
+                eng.prove(eng.eval_clause(cl), "ensures", "ensures[%d]" % i, src.first_line, assume_after=True)
             return 1
         else:
             e = outcome[1]
@@ -155,6 +158,8 @@ def post_state(eng, contract, src, outcome):
             post_env = dict(eng.env0)
             eng.frames[0].env = post_env
             whens = [w for (exc, w) in contract.raises if isinstance(e.cls, type) and issubclass(e.cls, exc)]
+            if whens and any(w is None for w in whens):
+                return 1
             if whens:
                 g = z3.Or([eng.truth(eng.eval_clause(w)) for w in whens])
                 eng.prove(g, "raises_when", "%s only when specified" % e.cls.__name__, e.line, assume_after=False)
